@@ -35,6 +35,15 @@ CONFIGS = [
 ]
 
 
+# COMMTIMEOUT short enough to wait for: a peer that stalls WITH a timeout configured must not block anybody beyond it
+STALL_TIMEOUT = 3.0
+STALL_CONFIGS = [
+    {"server": "thread", "pool": 1, "timeout": STALL_TIMEOUT},
+    {"server": "thread", "pool": 2, "timeout": STALL_TIMEOUT},
+    {"server": "multiplex", "pool": 4, "timeout": STALL_TIMEOUT},
+]
+
+
 # ---------------------------------------------------------------- Gallina printers
 def c_str(s):
     return '"%s"' % s
@@ -99,6 +108,18 @@ def targeted(rng, cfg, tier_thorough):
     for phase in ("pre", "post"):
         base = d.base_connect(rng, serializer="serpent") if phase == "pre" else d.base_invoke(rng, serializer="serpent")
         hs = phase == "post"
+        # every annotation chunk length at the signed / unsigned boundary values, outer sizes consistent
+        attacks = []
+        for v in d.CHUNK_VALUES:
+            lays = d.chunk_layouts(rng, v)
+            if not tier_thorough:
+                lays = [lays[0]] + rng.sample(lays[1:], 1)
+            for lay in lays:
+                for wd in ((True, False) if tier_thorough else (rng.random() < 0.5,)):
+                    attacks.append((hs, "chunklen", d.ann_message(base, lay, with_data=wd), rng.choice(["read", "read", "close"])))
+        rng.shuffle(attacks)
+        for i in range(0, len(attacks), 5):
+            out.append(attack_scenario(rng, cfg, attacks[i:i + 5]))
         # every header field at boundary values
         attacks = []
         for name, off, w in d.FIELDS:
@@ -119,12 +140,51 @@ def targeted(rng, cfg, tier_thorough):
     return out
 
 
+def handover_scenarios(rng, cfg):
+    """thread server: a new well-behaved client is accepted exactly while the worker of a just-ended connection hands itself
+    back to the pool (tools/lib/c05drv.py parks that worker right after Pool.notify_done returned, until Pool.process has
+    dispatched the next connection): the new client must be served, nobody stranded"""
+    from tools.lib import c05drv as d
+    out = []
+    enders = [[["send", 0, b"GET / HTTP/1.0\r\n\r\n".hex(), "garbage"], ["read", 0]],
+              [["send", 0, d.base_connect(rng, serializer="serpent")[:17].hex(), "truncate"], ["close", 0]],
+              [["send", 0, d.base_connect(rng, serializer="serpent").hex(), "connect:valid"], ["read", 0], ["reset", 0]]]
+    for e in enders:
+        out.append({"cfg": cfg, "steps": [["arm"], ["open", 0]] + e + [["fresh", "handover-connection-dropped"], ["wcall", rng.randrange(1000)]]})
+    return out
+
+
+def stall_scenarios(rng, cfg, tier_thorough):
+    """COMMTIMEOUT configured: peers that send nothing / a prefix and then stay silent WITHOUT disconnecting; after COMMTIMEOUT
+    plus slack a new client must get an answer (a refusal when the pool is full) while the stallers are still connected"""
+    from tools.lib import c05drv as d
+    base = d.base_connect(rng, serializer="serpent")
+    inv = d.base_invoke(rng, serializer="serpent")
+    prefixes = [("pre", b""), ("pre", base[:3]), ("pre", base[:20]), ("pre", base[:45]), ("post", inv[:30])]
+    if not tier_thorough:
+        prefixes = [prefixes[0], rng.choice(prefixes[1:4]), prefixes[4]]
+    out = []
+    for phase, pre in prefixes:
+        steps = [["open", 0]]
+        if phase == "post":
+            steps += [["send", 0, base.hex(), "connect:valid"], ["read", 0]]
+        if pre:
+            steps.append(["send", 0, pre.hex(), "stall:prefix"])
+        steps += [["stall", cfg["timeout"] + 2.0], ["fresh", "accept-loop-blocked"], ["close", 0], ["wcall", rng.randrange(1000)]]
+        out.append({"cfg": cfg, "steps": steps})
+    return out
+
+
 def make_scenarios(ctx, n_random):
     from tools.lib import c05drv as d
     rng = ctx.rng
     scs = []
+    for cfg in STALL_CONFIGS:
+        scs += stall_scenarios(rng, cfg, not ctx.quick)
     for cfg in CONFIGS:
         scs += targeted(rng, cfg, not ctx.quick)
+        if cfg["server"] == "thread" and cfg["pool"] > 1:
+            scs += handover_scenarios(rng, cfg)
     per = max(1, n_random // len(CONFIGS))
     for cfg in CONFIGS:
         for _ in range(per):
@@ -146,14 +206,14 @@ def _chunk(args):
             try:
                 r = p.play(sc, want_case=want_case and info is not None)
             except Exception as x:     # infrastructure trouble: one retry on a fresh daemon
-                p.stop()
+                p.stop(kill=True)
                 try:
                     r = p.play(sc, want_case=want_case and info is not None)
                 except Exception as x2:
                     r = {"violations": [], "case": None, "dist": [], "error": "%s: %s" % (type(x2).__name__, x2)}
             out.append((idx, r))
     finally:
-        p.stop()
+        p.stop(kill=True)
     return out
 
 
@@ -164,9 +224,14 @@ def execute(ctx, scenarios, info, want_case=True):
     chunks = []
     for key, items in by_cfg.items():
         cfg = json.loads(key)
-        size = max(10, (len(items) + 3) // 4)
+        slow = cfg in STALL_CONFIGS
+        size = 2 if slow else max(10, (len(items) + 3) // 4)
         for k in range(0, len(items), size):
-            chunks.append((ctx.tree, info, cfg, items[k:k + size], want_case))
+            chunk = (ctx.tree, info, cfg, items[k:k + size], want_case)
+            if slow:
+                chunks.insert(0, chunk)
+            else:
+                chunks.append(chunk)
     results = [None] * len(scenarios)
     mp = multiprocessing.get_context("fork")
     with mp.Pool(min(8, vlib.NPROC, max(1, len(chunks)))) as pool:
@@ -233,9 +298,12 @@ def run(ctx, model_ok=True):
     res.rule = ("one case = one scenario on a real daemon over loopback: a witness client connected throughout, 1-5 attacking "
                 "connections sending structure-aware hostile messages (each header field at boundary values, inconsistent length "
                 "fields, prefix truncations followed by close or reset, garbage, unknown serializer / message type, undecodable "
-                "payload, unknown object / member, methods and validators raising a zoo of Exception subclasses incl. "
+                "payload, every annotation chunk length at the signed/unsigned 32-bit boundary values with consistent outer sizes, "
+                "unknown object / member, methods and validators raising a zoo of Exception subclasses incl. "
                 "unserialisable and unprintable ones) before / during / after the handshake, then answer read, reset or close; "
-                "8 server configurations (thread / multiplex, pool 1/2/4, with / without COMMTIMEOUT); non-trivial = at least "
+                "8 server configurations (thread / multiplex, pool 1/2/4, with / without COMMTIMEOUT); plus: peers that stall without "
+                "disconnecting under a 3 s COMMTIMEOUT (a new client must be answered after it), and a new client accepted exactly "
+                "while a worker hands itself back to the pool (forced by harness-side hooks around Pool.notify_done/process); non-trivial = at least "
                 "one exception surfaced in the skeleton; distinct = distinct scenario hash")
     res.samples = [scenarios[-1], scenarios[0]]
     return res
